@@ -329,3 +329,21 @@ def dict_entries(ff, flow, target: str):
             if [x for x in guards.path_conditions(ff.node, st) if x[0] in ("if", "exc", "loop")]:
                 conditional = True
     return entries, stmts, conditional
+
+
+def guarded_values(ff, flow, defs):
+    """[(conditions, value)] for the given definitions of one local: `x = A if c else B` counts as two alternatives under
+    c / not c, exactly like `if c: x = A` / `else: x = B`.  Conditions are canonical (text, polarity) pairs."""
+    from ..core import guards
+    out = []
+
+    def split(conds, v):
+        if isinstance(v, ast.IfExp):
+            split(conds + [(txt(a), p) for a, p in guards.canon_cond(v.test, True)], v.body)
+            split(conds + [(txt(a), p) for a, p in guards.canon_cond(v.test, False)], v.orelse)
+        else:
+            out.append((conds, v))
+    for d in defs:
+        base = [(txt(e), pol) for kind, e, pol in guards.path_conditions(ff.node, d.stmt) if kind == "if"] if d.stmt is not None else []
+        split(base, d.value)
+    return out
